@@ -35,6 +35,8 @@ def main():
             result["checks"][c] = {"exit": rc, "wall_s": round(time.time() - t, 1), "lines": [l[:500] for l in lines[:4]]}
     finally:
         sh("git -C /repo checkout -- . && git -C /repo clean -fdq -- jsonpath_rfc9535")
+        # evidence and replay files written while the change was applied describe the changed tree, not /repo
+        sh(f"cd {VERIF} && git checkout -- evidence && git clean -fdq -- replays evidence")
     meta["evaluation"] = result
     json.dump(meta, open(os.path.join(d, "meta.json"), "w"), indent=1)
     alarms = {c: v for c, v in result["checks"].items() if v["exit"] != 0}
